@@ -502,6 +502,15 @@ def F50(fil):
     return not np.array_equal(merged.minima, x.min(axis=0)), f"empty + full accumulator: minima {merged.minima.tolist()}, data minima {x.min(axis=0).tolist()}"
 
 
+def F51(fil):
+    from sigpyproc.io.fileio import FileReader
+    fr = FileReader(fil.header.stream_info, mode="rb", nbits=8)
+    pos = fr.cur_data_pos_stream
+    first = fr.cread(fil.header.nchans)
+    want = fil.read_block(0, 1).data[:, 0]
+    return pos != 0 or not np.array_equal(first, want), f"fresh FileReader: stream position {pos}, first cread equals the first sample: {bool(np.array_equal(first, want))}"
+
+
 ALL = {k: v for k, v in globals().items() if k.startswith("F") and k[1:].isdigit()}
 
 
